@@ -116,7 +116,7 @@ def run_case(ctx, g, rng):
     if g < n_small_chunks() and (ctx.tier == "thorough" or g % 8 == 0):
         small_world_case(ctx, g)
     d = rng.choice(gen.DELIMS)
-    if g % 16 == 15:
+    if g % 17 == 16:  # (a modulus coprime to the shard counts: these heavier cases spread over all shards)
         return big_map_case(ctx, g, rng, d)
     recs = gen.records(rng, d, 0, 6, allow_delim=rng.random() < 0.2)
     c, how = gen.build(api, recs, d, rng)
